@@ -267,7 +267,7 @@ func edgeDominates(ifb *ssa.BasicBlock, succ int, target *ssa.BasicBlock) bool {
 // function exit (Return / end of block with no successors) and, when loopHead != nil, re-entering loopHead.
 type pathQuery struct {
 	discharge func(ssa.Instruction) bool
-	terminal  func(ssa.Instruction) bool // extra terminals besides function exits
+	terminal  func(ssa.Instruction) bool                   // extra terminals besides function exits
 	prune     func(from *ssa.BasicBlock, succIdx int) bool // true = do not follow this edge
 	loopHead  *ssa.BasicBlock
 	noExit    bool // function exits are not terminals
